@@ -11,6 +11,7 @@ from __future__ import annotations
 import ast
 
 from sa import mutate as M
+from sa import pattern as PT
 from sa.ctx import Ctx
 from sa.loader import AnalysisError, call_name, norm, own_nodes, parent
 from sa.ranges import has, has_bound, refusal_constraints
@@ -32,10 +33,10 @@ def rule_checksum_gate(ctx: Ctx, rep: Report) -> None:
     hits = [n for t, pol, n in ctx.refusals(e) if pol and isinstance(t, ast.Compare) and isinstance(t.ops[0], ast.NotEq) and norm(t) in ("cs_entropy[bits:] != checksum", "checksum != cs_entropy[bits:]")]
     ok = bool(hits) and g.must_pass([h.id for h in hits]) is None
     rep.ob(rule, "bip39.entropy_from_mnemonic", ok, e.where(), "trailing bits != recomputed checksum refused on every path" if ok else "entropy is returned without the checksum comparison")
-    txt = norm(e.node)
+    txt = PT.text(e)
     rep.ob(rule, "bip39:split", "bits = int(len(cs_entropy) * 32 / 33)" in txt and "_entropy_checksum(cs_entropy[:bits])" in txt, e.where(), "ENT = 32/33 of the bits; checksum recomputed from the entropy part")
     ec = ctx.func(f"{B39}._entropy_checksum")
-    txt = norm(ec.node)
+    txt = PT.text(ec)
     rep.ob(rule, "bip39:checksum_def", "sha256(bytes_entropy).digest()" in txt and "checksum_bits = len(bytes_entropy) // 4" in txt and "checksum.zfill(256)" in txt and "checksum[:checksum_bits]" in txt, ec.where(), "leftmost ENT/32 bits of sha256(entropy)")
     s = ctx.func(f"{B39}.seed_from_mnemonic")
     g = ctx.cfg(s)
@@ -91,11 +92,11 @@ def rule_thresholds(ctx: Ctx, rep: Report) -> None:
     cs = refusal_constraints(ctx, sh)
     rep.ob(rule, "share:min_words", any(c.subject == "n_words" and c.op == "<" and c.value == 20 for c in cs) and ctx.const(S39, "_MIN_WORDS") == 20, sh.where(), "at least 20 words")
     rep.ob(rule, "share:padding", any(c.subject == "padding" and c.op == ">" and c.value == 8 for c in cs) and any("value_bits[:padding]" in c.subject and c.op == "!=" for c in cs), sh.where(), "at most 8 padding bits, all zero")
-    txt = norm(sh.node)
+    txt = PT.text(sh)
     rep.ob(rule, "share:+1_fields", "group_threshold=int(bits[field + 4:field + 8], 2) + 1" in txt and "group_count=int(bits[field + 8:field + 12], 2) + 1" in txt and "member_threshold=int(bits[field + 16:field + 20], 2) + 1" in txt
            and "group_index=int(bits[field:field + 4], 2)" in txt and "member_index=int(bits[field + 12:field + 16], 2)" in txt, sh.where(), "thresholds and counts are stored minus one; indexes as they are")
     cf = ctx.func(f"{S39}._common_field")
-    txt = norm(cf.node)
+    txt = PT.text(cf)
     need = ["share.identifier", "share.extendable", "share.iteration_exponent", "share.group_threshold", "share.group_count", "len(share.value)"]
     rep.ob(rule, "common_fields", all(n in txt for n in need) and any(c.subject == "len(values)" and c.op == ">" and c.value == 1 for c in refusal_constraints(ctx, cf)), cf.where(), "the six header fields every share of a set must agree on")
     pp = ctx.func(f"{S39}._assert_valid_passphrase")
